@@ -44,11 +44,17 @@ type IgnoreErrors struct {
 func (f *IgnoreErrors) Call(s *slip.Scope, args slip.List, depth int) (result slip.Object) {
 	defer func() {
 		if rec := recover(); rec != nil {
-			if p, ok := rec.(*slip.Panic); ok {
-				result = slip.Values{nil, p}
-				if p.Condition != nil {
-					result = slip.Values{nil, p.Condition}
+			switch tr := rec.(type) {
+			case *slip.Panic:
+				result = slip.Values{nil, tr}
+				if tr.Condition != nil {
+					result = slip.Values{nil, tr.Condition}
 				}
+			case slip.Object:
+				// A condition raised without being wrapped in a Panic.
+				result = slip.Values{nil, tr}
+			default:
+				result = slip.Values{nil, slip.ErrorNew(s, depth, "%v", tr)}
 			}
 		}
 	}()
